@@ -484,6 +484,9 @@ def sub(base, idx):
                 ks[kv.a[0].a[0]] = kv.a[1]
         if set(ks) == {True, False}:
             return ite(idx.a[1][0], ks[True], ks[False])
+    # (a, b)[bool(c)] is b if c else a   (False is 0, True is 1)
+    if base.op in ("tuple", "list") and len(base.a) == 2 and not any(z.op == "star" for z in base.a) and idx.op == "call" and callee_name(idx.a[0]) == "builtins.bool" and len(idx.a[1]) == 1:
+        return ite(idx.a[1][0], base.a[1], base.a[0])
     # a conditionally chosen index or a conditionally chosen tuple: the choice moves outwards
     if idx.op == "ite" and all(z.op in ("slice", "call", "const") for z in (idx.a[1], idx.a[2])) and any(z.op == "slice" or (z.op == "call" and callee_name(z.a[0]) == "builtins.slice") for z in (idx.a[1], idx.a[2])):
         return ite(idx.a[0], sub(base, idx.a[1]), sub(base, idx.a[2]))
